@@ -569,11 +569,64 @@ func (ts *TermStore) Div(a, m *Term) *Term {
 		if t.lo != nil && t.hi != nil && t.lo.Cmp(t.hi) == 0 {
 			return ts.Int(t.lo)
 		}
-		// (c*x) div m where m | c
+		// (c*x) div m where m | c ; and (c*x) div m = x div (m/c) where c | m, c > 0
 		if a.op == "*" && a.args[0].IsConst() {
 			q, r := new(big.Int).QuoRem(a.args[0].ival, m.ival, new(big.Int))
 			if r.Sign() == 0 {
 				return ts.Mul(ts.Int(q), a.args[1])
+			}
+			if a.args[0].ival.Sign() > 0 {
+				q2, r2 := new(big.Int).QuoRem(m.ival, a.args[0].ival, new(big.Int))
+				if r2.Sign() == 0 {
+					return ts.Div(a.args[1], ts.Int(q2))
+				}
+			}
+		}
+		// power-of-two divisor: drop a low part that cannot carry.  floor((L + 2^k H)/2^m) =
+		// floor(H / 2^(m-k)) when 0 <= L < 2^k and k <= m
+		if a.op == "+" && m.ival.TrailingZeroBits() == uint(m.ival.BitLen()-1) {
+			mb := uint(m.ival.BitLen() - 1)
+			ks := map[uint]bool{}
+			for _, x := range a.args {
+				if x.tz > 0 && x.tz <= mb {
+					ks[x.tz] = true
+				}
+			}
+			var best uint
+			for k := range ks {
+				if k <= best {
+					continue
+				}
+				lo, hi := new(big.Int), new(big.Int)
+				ok := true
+				for _, x := range a.args {
+					if x.tz >= k {
+						continue
+					}
+					if x.lo == nil || x.hi == nil {
+						ok = false
+						break
+					}
+					lo.Add(lo, x.lo)
+					hi.Add(hi, x.hi)
+				}
+				if ok && lo.Sign() >= 0 && hi.Cmp(pow2(k)) < 0 {
+					best = k
+				}
+			}
+			if best > 0 {
+				var hs []*Term
+				dropped := false
+				for _, x := range a.args {
+					if x.tz >= best {
+						hs = append(hs, x)
+					} else {
+						dropped = true
+					}
+				}
+				if dropped && len(hs) > 0 {
+					return ts.Div(ts.Add(hs...), m)
+				}
 			}
 		}
 		// (sum of multiples of m + small rest) div m  =  (sum of multiples)/m   when 0 <= rest < m
@@ -593,10 +646,9 @@ func (ts *TermStore) Div(a, m *Term) *Term {
 				if len(rest) == 0 {
 					return ts.Add(mult...)
 				}
+				// floor((k*m + r)/m) = k + floor(r/m) for every integer r
 				r := ts.Add(rest...)
-				if r.lo != nil && r.hi != nil && r.lo.Sign() >= 0 && r.hi.Cmp(m.ival) < 0 {
-					return ts.Add(mult...)
-				}
+				return ts.Add(append(mult, ts.Div(r, m))...)
 			}
 		}
 		// (x div a) div b = x div (a*b)
